@@ -373,7 +373,10 @@ def judge_c09(obs: L.Obs) -> list[tuple[str, str]]:
         # (3a) every waiter failing after the first fatal carries it
         if not isinstance(F1, APIConnectionError):
             continue
-        _judge_waiters(obs, v, fseq, ft, F1, out)
+        # (a cause RECORDED before that first report - disconnect() giving up on a stalled connect records its timeout, then goes on - is the
+        #  connection's first cause by its own account: a waiter carrying it is right)
+        earlier = [x[3] for x in getattr(v, "fatal_sets", []) if x[0] < fseq and isinstance(x[3], APIConnectionError)]
+        _judge_waiters(obs, v, fseq, ft, F1, out, also_first=earlier)
     # (3a') a first cause recorded WITHOUT a fatal report (disconnect() gives up waiting for a stalled connect: it records its timeout and then
     #       closes the connection) is a first cause all the same: the connect waiter it interrupts carries it
     for v in obs.conns:
@@ -387,7 +390,8 @@ def judge_c09(obs: L.Obs) -> list[tuple[str, str]]:
     return out
 
 
-def _judge_waiters(obs: L.Obs, v: Any, fseq: int, ft: float, F1: BaseException, out: list[tuple[str, str]], only_at_close: bool = False) -> None:
+def _judge_waiters(obs: L.Obs, v: Any, fseq: int, ft: float, F1: BaseException, out: list[tuple[str, str]], only_at_close: bool = False,
+                   also_first: list[BaseException] | None = None) -> None:
     if True:
         for c in obs.calls:
             if c.outcome != "raised" or c.seq_ret is None or c.seq_ret < fseq or c.seq_call > fseq:
@@ -406,10 +410,14 @@ def _judge_waiters(obs: L.Obs, v: Any, fseq: int, ft: float, F1: BaseException, 
             if F1 in chain or (type(e) is type(F1) and str(F1) in str(e)):
                 _stat(f"c09/waiter-carries-first-cause/{c.name}/{type(F1).__name__}")
                 continue
+            if any(F in chain or (type(e) is type(F) and str(F) in str(e)) for F in (also_first or [])):
+                _stat(f"c09/waiter-carries-earlier-recorded-cause/{c.name}")
+                continue
             if v.closed_seq is not None and v.closed_seq < fseq:
                 continue  # the connection was already closed (gracefully) before the first fatal report
-            if type(e).__name__ == "TimeoutAPIError" and abs((c.t_ret or 0) - ft) < 1e-9:
-                continue  # its own timeout fired in the very same instant as the fatal error
+            if type(e).__name__ == "TimeoutAPIError" and abs((c.t_ret or 0) - ft) < 1e-9 and \
+                    any(ts < fseq and abs(tt - ft) < 1e-9 for ts, tt, _ in obs.timer_fired):
+                continue  # a timer (its own timeout) ran in the very same instant BEFORE the fatal error was recorded: the timeout was first
             key = (f"C09/first-cause-masked/{c.name}", f"{c.name} failed with {e!r} although the first fatal cause was {F1!r} (cause {cause_tag(obs)})")
             if key not in out:
                 out.append(key)
@@ -686,6 +694,49 @@ def high_water_sweep(ctx: Ctx, prop: str) -> None:
                     o = run_spec(spec)
                     ctx.res.count(f"workload/high-water/{'library refused to queue' if o.stall.get('refused') else 'filled'}")
                     record(ctx, prop, o, "high-water")
+
+
+def deadline_specs(framings: tuple[str, ...] = ("noise", "plain"),
+                   kinds: tuple[str, ...] = ("ok", "other-name", "other-key", "other-version", "invalid-password")) -> Any:
+    """Specs for: the device's answer to the connect phase - conformant, or deviating (another name, a handshake error frame, another API version, a
+    rejected password) - and the phase's own 30 s deadline fall into the SAME loop iteration: the answer arrives exactly at the deadline, or it
+    arrived shortly before it while the client process was stopped (SIGSTOP, VM pause, a blocked loop) and the loop wakes up after the deadline with
+    both pending.  asyncio runs I/O callbacks before timers, so the answer is handled first."""
+    S = L.default_spec
+    for framing in framings:
+        for dev_kind in kinds:
+            if framing == "plain" and dev_kind == "other-key":
+                continue
+            for timing in ("exact", "suspended", "suspended-long", "just-before"):
+                dev: dict[str, Any] = {"reply_delay": {"exact": 30.0, "suspended": 29.9, "suspended-long": 12.0, "just-before": 29.999}[timing]}
+                kw: dict[str, Any] = {"login": dev_kind == "invalid-password", "password": "pw" if dev_kind == "invalid-password" else None}
+                if dev_kind == "other-name":
+                    dev["name"] = "somebody-else"
+                    kw["expected_name"] = "dev"
+                elif dev_kind == "other-key":
+                    dev["noise_psk"] = bytes(range(1, 33))
+                elif dev_kind == "other-version":
+                    dev["api_major"] = 3
+                elif dev_kind == "invalid-password":
+                    dev["invalid_password"] = True
+                spec = S(framing=framing, device=dev, program=[["connect"], ["sleep", 1.0], ["disconnect"]], **kw)
+                if timing.startswith("suspended"):
+                    spec["suspend"] = [dev["reply_delay"] - 0.5, 61.0 if timing == "suspended" else 95.0]
+                yield f"{framing}/{dev_kind}/{timing}", spec
+
+
+def deadline_sweep(ctx: Ctx, prop: str) -> None:
+    """Whichever way a library decides such a tie, what the connect waiter raises must be the first fatal cause the connection itself recorded."""
+    for idx, (_label, spec) in enumerate(deadline_specs()):
+        if ctx.mine(idx):
+            record(ctx, prop, run_spec(spec), "answer-at-the-deadline")
+
+
+def masked_first_cause(obs: L.Obs) -> list[tuple[str, str]]:
+    """Only the 'every waiter observes the first fatal cause' findings of a run (for the checks of C04 / C06, whose statements name the error a
+    pending wait receives)."""
+    STATS.clear()
+    return [(k, w) for k, w in judge_c09(obs) if k.startswith("C09/first-cause-masked/")]
 
 
 def same_turn_pairs_sweep(ctx: Ctx, prop: str) -> None:
